@@ -24,6 +24,15 @@ Proof.
   eapply M_union; [left; reflexivity|]. econstructor; [vm_compute; reflexivity | vm_compute; reflexivity | constructor].
 Qed.
 
+Lemma break_finally_refutes : exists P g fd vs fuel, check_prog P = true /\ check_prog_certified P = false /\
+  lookup (p_funcs P) g = Some fd /\ mems P vs (map snd (f_params fd)) /\ call_fun P fuel g vs = Exn TypeError.
+Proof.
+  exists break_finally_prog, 1, (snd (hd (0, {| f_params := []; f_ret := TNone; f_body := SPass; f_line := 0 |}) (p_funcs break_finally_prog))),
+         [VInt 0%Z], 400.
+  split; [vm_compute; reflexivity|]. split; [vm_compute; reflexivity|]. split; [reflexivity|].
+  split; [simpl; repeat constructor | vm_compute; reflexivity].
+Qed.
+
 Lemma statement_refuted : ~ accepted_programs_do_not_go_wrong.
 Proof.
   intro H. destruct loop_cap_refutes as [P [g [fd [vs [fuel [A [_ [B [C D]]]]]]]]].
